@@ -73,6 +73,7 @@ def emit(g, enums=None, masks=None, with_alias=True, from_u32=True):
             "    pub fn intersects(&self, other: %s) -> (r: bool) ensures r == (self.bits_ & other.bits_ != 0)" % T,
             "    { self.bits_ & other.bits_ != 0 }",
             "    pub fn is_empty(&self) -> (r: bool) ensures r == (self.bits_ == 0) { self.bits_ == 0 }",
+            "    pub fn union(self, other: %s) -> (r: %s) ensures r.bits_ == self.bits_ | other.bits_ { %s { bits_: self.bits_ | other.bits_ } }" % (T, T, T),
             "}",
         ]
         g.raw("\n".join(lines))
@@ -83,5 +84,5 @@ def emit(g, enums=None, masks=None, with_alias=True, from_u32=True):
 
 ASSUMED = [
     "spirv::T::from_u32 contract (Some iff declared, value-as-u32 == n): assumed here, discharged by unit spirv_enums on the real bodies",
-    "R2: bitflags-2 semantics of from_bits/bits/contains/intersects/is_empty on the 15 mask types: dependency contract, proved by unit kani_masks (Kani, all u32, real expansion)",
+    "R2: bitflags-2 semantics of from_bits/bits/contains/intersects/is_empty/union(|) on the 15 mask types: dependency contract, proved by unit kani_masks (Kani, all u32, real expansion)",
 ]
